@@ -15,9 +15,11 @@ GenActs(s) ==
   \cup {[op |-> "send", s |-> s, b |-> Fresh(c, n), r |-> r] :
           n \in {k \in 0..3 : Len(c.acc) + k <= MaxBytes /\ (Ended(c) => k = 1)},
           r \in {"ok", "err"}}
-  \cup [op : {"close", "wok", "rok", "panic"}, s : {s}]
+  \cup [op : {"close", "wok", "panic"}, s : {s}]
+  \cup [op : {"rok"}, s : {s}, f : {"x", "send", "close"}]   \* f: what the handler does with the frame
+                                                            \* (its own Send / Close are recorded by it)
   \cup [op : {"wfault"}, s : {s}, n : 0..2]
-  \cup [op : {"rfault"}, s : {s}, k : {"eof", "err", "timeout", "herr", "dl"}]
+  \cup [op : {"rfault"}, s : {s}, k : {"eof", "err", "timeout", "herr", "dl", "temp"}]
 
 Held == "hold" \in DOMAIN last /\ last.hold
 
